@@ -62,6 +62,9 @@ def valueEq (strict : Bool) (be : Bool) (vr vr' : VR) (v v' : PValue) : Bool :=
     let na := (encodePrimitive false v).1
     let nb := (encodePrimitive false v').1
     if a.isEmpty || valueKind v == valueKind v' then padEq a b
+    -- Implicit VR re-labelled the element with the dictionary's VR (documented normalisation): the numbers are
+    -- re-read in the other VR's width, "equal values" can only mean the same value field
+    else if vr != vr' then padEq a b
     else (valueKind v == "u8" || valueKind v' == "u8") && (if strict then padEq na nb else padEq a b)
 
 def fragEq (a b : Bytes) : Bool := a == b || (a.length % 2 == 1 && b == a ++ [0])
